@@ -1,7 +1,7 @@
 (* C13 -- A reload is acknowledged only after NGINX serves the new configuration version.
    Only statements, each closed by [exact], each followed by Print Assumptions. *)
 From Coq Require Import List ZArith String Bool.
-From NIC Require Import Verify.Model Verify.Proofs.
+From NIC Require Import Verify.Model Verify.Proofs Verify.Codec.
 Import ListNotations.
 Open Scope Z_scope.
 
@@ -86,6 +86,36 @@ Theorem C13_api_guarded :
     h = version m /\ exists body l, check = Http 200 body l.
 Proof. exact api_guarded. Qed.
 Print Assumptions C13_api_guarded.
+
+(* The writer and the reader of the version agree on the whole int64 range: the body of
+   `return 200 <v>;` in the file the manager writes for version v (version_conf/show_Z, tied to
+   the real template by evaluation in Cases.v) is read by the verify client as exactly v. *)
+Theorem C13_written_version_is_read :
+  forall v, min_int64 <= v <= max_int64 -> atoi (show_Z v) = Some v.
+Proof. exact atoi_show_Z. Qed.
+Print Assumptions C13_written_version_is_read.
+
+(* Hence a worker serving the file of version v confirms expected version e iff e = v ... *)
+Theorem C13_served_file_confirms_only_its_version :
+  forall v e l, min_int64 <= v <= max_int64 ->
+    (classify (Http 200 (show_Z v) l) = Some e <-> e = v).
+Proof. exact served_file_confirms_only_its_version. Qed.
+Print Assumptions C13_served_file_confirms_only_its_version.
+
+(* ... and while every answering worker still serves the file of some other version (any
+   latencies, any mix of older generations), the wait for e is never acknowledged. *)
+Theorem C13_stale_workers_never_acknowledge :
+  forall (sched : nat -> resp) (e D : Z) (fuel : nat),
+    (forall i, exists v l, min_int64 <= v <= max_int64 /\ v <> e /\ sched i = Http 200 (show_Z v) l) ->
+    forall k, wait fuel sched e D 0 0 <> Acked k.
+Proof. exact stale_workers_never_acknowledge. Qed.
+Print Assumptions C13_stale_workers_never_acknowledge.
+
+Example C13_codec_nonvacuous :
+  atoi (show_Z 9223372036854775807) = Some 9223372036854775807 /\
+  atoi (show_Z (-9223372036854775808)) = Some (-9223372036854775808) /\
+  atoi "9223372036854775808" = None.
+Proof. vm_compute. repeat split. Qed.
 
 (* Non-vacuity: a schedule with a stale version, an error, garbage, a non-200 carrying the
    right body, then the expected version, is acknowledged at index 4; the same schedule
